@@ -42,6 +42,9 @@ deriving Repr, DecidableEq
 def SerCfg.code : SerCfg := ⟨false, false, false, false, false⟩
 /-- all proposed fixes -/
 def SerCfg.fixed : SerCfg := ⟨true, true, true, true, true⟩
+/-- ***SWITCH***: what the driver (correspondence) runs; e.g.
+`{ SerCfg.code with attrsBeforeDecls := true }` once that fix is committed in /repo -/
+def SerCfg.current : SerCfg := SerCfg.code
 
 /-- the serializer's `NamespaceMap`: every value is `Some(ns)` there (`insert`, mod.rs:103-107) -/
 abbrev SMap := List (Option Str × Str)
@@ -149,12 +152,12 @@ def serDoc (cfg : SerCfg) (doc : List Node) : List Ev := (serNodes cfg [] doc).1
 
 /-- `write_to_buf_escaped` (mod.rs:75-87) -/
 def escapeChar (cfg : SerCfg) (attrMode : Bool) (c : Char) : Str :=
-  if c = '&' then "&amp;".toList
-  else if c = '\'' ∧ attrMode then "&apos;".toList
-  else if c = '"' ∧ attrMode then "&quot;".toList
-  else if c = '<' ∧ !attrMode then "&lt;".toList
-  else if c = '>' ∧ !attrMode then "&gt;".toList
-  else if c = '\r' ∧ cfg.escapeCR then "&#13;".toList
+  if c = '&' then ['&', 'a', 'm', 'p', ';']
+  else if c = '\'' ∧ attrMode then ['&', 'a', 'p', 'o', 's', ';']
+  else if c = '"' ∧ attrMode then ['&', 'q', 'u', 'o', 't', ';']
+  else if c = '<' ∧ !attrMode then ['&', 'l', 't', ';']
+  else if c = '>' ∧ !attrMode then ['&', 'g', 't', ';']
+  else if c = '\r' ∧ cfg.escapeCR then ['&', '#', '1', '3', ';']
   else [c]
 
 def escape (cfg : SerCfg) (attrMode : Bool) (s : Str) : Str := (s.map (escapeChar cfg attrMode)).flatten
@@ -196,6 +199,8 @@ deriving Repr, DecidableEq
 
 def LexCfg.code : LexCfg := ⟨TokCfg.code, false⟩
 def LexCfg.fixed : LexCfg := ⟨TokCfg.fixed, true⟩
+/-- ***SWITCH***: follows `TokCfg.current`; set `attrCRNormalised := true` once item 12 is fixed -/
+def LexCfg.current : LexCfg := ⟨TokCfg.current, false⟩
 
 /-- input-stream preprocessing: CRLF and CR become LF -/
 def normalizeNewlines : Str → Str
